@@ -240,3 +240,102 @@ Example C17_pulse_example :
   in_pulses false evs = 3%nat /\ out_cycles (ps_start 3 0) evs = 1%nat /\ inflight (ps_run 3 0 evs) = 2%nat /\
   out_cycles (ps_start 3 0) (evs ++ tail) = 3%nat.
 Proof. vm_compute. repeat split; auto. Qed.
+
+(* --- translated: amaranth/lib/cdc.py regenerated on every run by translator/unit_cdc.py (Gen/CdcGen.v) ---
+   The step / start / output functions obtained by symbolic execution of the current text of
+   _check_stages, FFSynchronizer.__init__/elaborate, AsyncFFSynchronizer.elaborate,
+   ResetSynchronizer.elaborate and PulseSynchronizer.__init__/elaborate equal the model the theorems
+   above are about, for all shapes, stage counts, states and events. *)
+From V.Gen Require CdcGen.
+From V.Proofs Require GenEqCdc.
+
+Theorem C17_translated_check_stages stages : CdcGen.g_check_stages stages = check_stages stages.
+Proof. exact (GenEqCdc.gen_check_stages_eq stages). Qed.
+Print Assumptions C17_translated_check_stages.
+
+(* every constructor applies _check_stages to its `stages` argument first *)
+Theorem C17_translated_ctor_checks stages :
+  CdcGen.g_ff_ctor_check stages = check_stages stages /\ CdcGen.g_af_ctor_check stages = check_stages stages /\
+  CdcGen.g_rs_ctor_check stages = check_stages stages /\ CdcGen.g_ps_ctor_check stages = check_stages stages.
+Proof.
+  exact (conj (GenEqCdc.gen_ff_ctor_check_eq stages) (conj (GenEqCdc.gen_af_ctor_check_eq stages)
+        (conj (GenEqCdc.gen_rs_ctor_check_eq stages) (GenEqCdc.gen_ps_ctor_check_eq stages)))).
+Qed.
+Print Assumptions C17_translated_ctor_checks.
+
+(* FFSynchronizer.__init__ (reset init : option Z, None = exception): without the deprecated reset= *)
+Theorem C17_translated_ff_ctor_init init : CdcGen.g_ff_ctor_init None init = Some (ff_ctor_init init).
+Proof. exact (GenEqCdc.gen_ff_ctor_init_eq init). Qed.
+Print Assumptions C17_translated_ff_ctor_init.
+
+Theorem C17_translated_ff_start sh stages init i0 :
+  CdcGen.g_ff_start sh stages (ff_ctor_init init) i0 = ff_start sh stages init i0.
+Proof. exact (GenEqCdc.gen_ff_start_eq sh stages init i0). Qed.
+Print Assumptions C17_translated_ff_start.
+
+Theorem C17_translated_ff_step sh s e : CdcGen.g_ff_step sh s e = ff_step sh s e.
+Proof. exact (GenEqCdc.gen_ff_step_eq sh s e). Qed.
+Print Assumptions C17_translated_ff_step.
+
+Theorem C17_translated_ff_out_as osh sh s : CdcGen.g_ff_out_as osh sh s = ff_out_as osh s.
+Proof. exact (GenEqCdc.gen_ff_out_as_eq osh sh s). Qed.
+Print Assumptions C17_translated_ff_out_as.
+
+Theorem C17_translated_ff_run sh stages init i0 evs :
+  fold_left (CdcGen.g_ff_step sh) evs (CdcGen.g_ff_start sh stages (ff_ctor_init init) i0) = ff_run sh stages init i0 evs.
+Proof. exact (GenEqCdc.gen_ff_run_eq sh stages init i0 evs). Qed.
+Print Assumptions C17_translated_ff_run.
+
+Theorem C17_translated_ffr_step sh init async rl s e :
+  CdcGen.g_ffr_step sh (ff_ctor_init init) async rl s e = ffr_step sh init async rl s e.
+Proof. exact (GenEqCdc.gen_ffr_step_eq sh init async rl s e). Qed.
+Print Assumptions C17_translated_ffr_step.
+
+Theorem C17_translated_af_start stages i0 : CdcGen.g_af_start stages i0 = af_start stages i0.
+Proof. exact (GenEqCdc.gen_af_start_eq stages i0). Qed.
+Print Assumptions C17_translated_af_start.
+
+Theorem C17_translated_af_step pos s e : CdcGen.g_af_step pos s e = af_step pos s e.
+Proof. exact (GenEqCdc.gen_af_step_eq pos s e). Qed.
+Print Assumptions C17_translated_af_step.
+
+Theorem C17_translated_af_out s : CdcGen.g_af_out s = af_out s.
+Proof. exact (GenEqCdc.gen_af_out_eq s). Qed.
+Print Assumptions C17_translated_af_out.
+
+Theorem C17_translated_af_run pos stages i0 evs :
+  fold_left (CdcGen.g_af_step pos) evs (CdcGen.g_af_start stages i0) = af_run pos stages i0 evs.
+Proof. exact (GenEqCdc.gen_af_run_eq pos stages i0 evs). Qed.
+Print Assumptions C17_translated_af_run.
+
+(* ResetSynchronizer.elaborate = AsyncFFSynchronizer with the default async_edge ("pos"), output = ResetSignal(domain) *)
+Theorem C17_translated_rs_step s e : CdcGen.g_rs_step s e = af_step true s e.
+Proof. exact (GenEqCdc.gen_rs_step_eq s e). Qed.
+Print Assumptions C17_translated_rs_step.
+
+Theorem C17_translated_rs_run stages i0 evs :
+  fold_left CdcGen.g_rs_step evs (CdcGen.g_rs_start stages i0) = rs_run stages i0 evs /\
+  forall s, CdcGen.g_rs_out s = af_out s.
+Proof. exact (conj (GenEqCdc.gen_rs_run_eq stages i0 evs) GenEqCdc.gen_rs_out_eq). Qed.
+Print Assumptions C17_translated_rs_run.
+
+Theorem C17_translated_ps_start stages i0 : CdcGen.g_ps_start stages i0 = ps_start stages i0.
+Proof. exact (GenEqCdc.gen_ps_start_eq stages i0). Qed.
+Print Assumptions C17_translated_ps_start.
+
+Theorem C17_translated_ps_step s e : CdcGen.g_ps_step s e = ps_step s e.
+Proof. exact (GenEqCdc.gen_ps_step_eq s e). Qed.
+Print Assumptions C17_translated_ps_step.
+
+Theorem C17_translated_ps_out s : CdcGen.g_ps_out s = ps_out s.
+Proof. exact (GenEqCdc.gen_ps_out_eq s). Qed.
+Print Assumptions C17_translated_ps_out.
+
+Theorem C17_translated_ps_run stages i0 evs :
+  fold_left CdcGen.g_ps_step evs (CdcGen.g_ps_start stages i0) = ps_run stages i0 evs.
+Proof. exact (GenEqCdc.gen_ps_run_eq stages i0 evs). Qed.
+Print Assumptions C17_translated_ps_run.
+
+Theorem C17_translated_requires_posedge comp : CdcGen.g_requires_posedge comp = requires_posedge comp.
+Proof. exact (GenEqCdc.gen_requires_posedge_eq comp). Qed.
+Print Assumptions C17_translated_requires_posedge.
